@@ -36,6 +36,8 @@ ASSUMPTIONS = [
     "Oracle ROWNUM is modelled as ROW_NUMBER() over the inline view's ORDER BY (Oracle assigns ROWNUM in the order rows leave the ordered inline view)",
     "MSSQL/Oracle/MySQL/PostgreSQL are never executed; their native clauses are interpreted from compiled text+params using each vendor's documented LIMIT grammar (trusted)",
     "negative limit/offset and chained slice().slice() are outside the documented domain and not generated",
+    "slice()/[a:b] on a statement or Query that already has OFFSET n is relative to the offset rows (sql/util._make_slice adds start to the offset); an earlier LIMIT is replaced by the slice length, "
+    "so with an earlier LIMIT only slices lying inside it (stop <= limit, open-ended only from 0) are generated, where that rule and Python-list composition agree - the docs are silent beyond that",
     "Oracle emulation tier restricts ORDER BY keys to selected columns (needed to re-express the inline view's order one level up)",
 ]
 
@@ -76,7 +78,7 @@ def _lo_spec(draw, offset=False):
     return {"v": v, "as": draw(st.sampled_from(AS_KINDS)), "split": draw(st.integers(0, 5))}
 
 
-def base_cases(shapes=SHAPES, apis=("limit_offset", "offset_limit", "slice", "reset"), rows=True):
+def base_cases(shapes=SHAPES, apis=("limit_offset", "offset_limit", "slice", "reset", "pre_slice"), rows=True):
     return st.fixed_dictionaries(
         {
             "a": rows_a if rows else st.just([]),
@@ -88,6 +90,8 @@ def base_cases(shapes=SHAPES, apis=("limit_offset", "offset_limit", "slice", "re
             "limit": _lo_spec(),
             "offset": _lo_spec(True),
             "api": st.sampled_from(list(apis)),
+            # pre_slice: slice(start, start+len) applied to a statement that already carries OFFSET (and maybe LIMIT); start is 0 half of the time
+            "sl": st.tuples(st.sampled_from([0, 1, 0, 3, 0, 2]), st.integers(0, 8), st.booleans()).map(list),
         }
     )
 
@@ -210,6 +214,22 @@ def apply_limit(sa, stmt, case, n, params, embed=False):
     """returns (limited statement, offset int, limit int|None)"""
     lim, off = resolve(case["limit"], n), resolve(case["offset"], n)
     api = case["api"]
+    if api == "pre_slice":
+        # statement already limited/offset (offset in any of the drawn forms), then slice(a, b): the slice is relative to the existing
+        # OFFSET (sql/util._make_slice adds start to it) and its length replaces the limit.  An earlier LIMIT is only generated when the
+        # slice lies within it (stop <= limit), where "replace" and Python-list composition agree; nothing else is documented.
+        a, length, with_limit = case.get("sl", [0, 3, False])
+        b = a + length
+        pre_off = off
+        pre_lim = lim if with_limit else None
+        if pre_lim is not None:
+            b = min(b, pre_lim)
+            a = min(a, b)
+        if pre_lim is not None:
+            stmt = stmt.limit(clause_for(sa, case["limit"], pre_lim, "lim_p", params, embed))
+        if pre_off is not None:
+            stmt = stmt.offset(clause_for(sa, case["offset"], pre_off, "off_p", params, embed))
+        return stmt.slice(a, b), (pre_off or 0) + a, b - a
     if api == "slice":
         # slice(start, stop) with plain ints (documented signature); derive from the drawn offset/limit
         start = off or 0
@@ -247,6 +267,10 @@ def py_slice(full, off, lim):
 
 def classes_for(case, n, off, lim, flags):
     cl = ["shape=" + case["shape"], "api=" + case["api"]]
+    if case["api"] == "pre_slice":
+        sl = case.get("sl", [0, 3, False])
+        has_off = bool(resolve(case["offset"], n))
+        cl.append("pre_slice:" + ("offset>0" if has_off else "no-offset") + ("+start=0" if sl[0] == 0 else "+start>0") + ("+limit" if sl[2] and case["limit"] is not None else ""))
     cl.append("limit=" + ("none" if lim is None else "0" if lim == 0 else "1" if lim == 1 else ">n" if lim > n else "k"))
     cl.append("offset=" + ("none/0" if not off else ">=n" if off >= n else "k"))
     for nm in ("limit", "offset"):
@@ -290,6 +314,10 @@ def check_live(case, ctx):
                 got2 = _rows(conn.execute(lstmt, p2))
                 off2 = p2.get("off_p", off)
                 lim2 = p2.get("lim_p", lim)
+                if case["api"] == "pre_slice":
+                    # the re-bound OFFSET moves the base, the slice start is added on top; the slice length replaced any LIMIT
+                    off2 = off + 1 if "off_p" in p2 else off
+                    lim2 = lim
                 want2 = py_slice(full, off2, lim2)
     finally:
         w.close()
@@ -347,6 +375,11 @@ index_ops = st.one_of(
     st.tuples(st.just("limit_offset"), st.one_of(st.none(), st.integers(0, 35)), st.one_of(st.none(), st.integers(0, 35))).map(list),
     st.tuples(st.just("select20"), st.one_of(st.none(), st.integers(0, 35)), st.one_of(st.none(), st.integers(0, 35))).map(list),
     st.tuples(st.just("first")).map(list),
+    # slicing / indexing a Query that already carries OFFSET n (and maybe LIMIT l): relative to the offset result
+    st.tuples(st.just("pre_slice"), st.integers(0, 12), st.one_of(st.none(), st.integers(1, 12)), st.sampled_from([0, 0, 1, 2, 5, None]), st.one_of(st.none(), st.integers(0, 14)), st.sampled_from([None, None, 2])).map(list),
+    st.tuples(st.just("pre_slice"), st.integers(1, 12), st.none(), st.just(0), st.one_of(st.none(), st.integers(1, 14)), st.none()).map(list),
+    st.tuples(st.just("pre_index"), st.integers(0, 12), st.one_of(st.none(), st.integers(1, 12)), st.sampled_from([0, 0, 1, 3, 9])).map(list),
+    st.tuples(st.just("pre_slice_m"), st.integers(0, 12), st.one_of(st.none(), st.integers(1, 12)), st.sampled_from([0, 0, 1, 4]), st.integers(0, 8)).map(list),
 )
 
 query_cases = st.fixed_dictionaries(
@@ -454,6 +487,43 @@ def check_query(case, ctx):
                 stmt = stmt.limit(lim).offset(off)
                 res = s.execute(stmt)
                 got = list((res.unique() if case["eager"].startswith("joined") else res).scalars())
+            elif kind in ("pre_slice", "pre_index", "pre_slice_m"):
+                pn, pl = op[1], op[2]
+                qq = q()
+                if pl is not None:
+                    qq = qq.limit(pl)
+                qq = qq.offset(pn)
+                base = full[pn:] if pl is None else full[pn : pn + pl]
+                if kind == "pre_slice":
+                    _, _, _, start, stop, step = op
+                    if pl is not None:
+                        # only slices inside the earlier LIMIT (see ASSUMPTIONS): open-ended ones must start at 0
+                        if stop is None:
+                            start = 0 if start is not None else None
+                        else:
+                            stop = min(stop, pl)
+                    if isinstance(start, int) and isinstance(stop, int) and stop - start <= 0:
+                        want = []
+                    else:
+                        want = base[start:stop:step]
+                    got = qq[start:stop:step]
+                elif kind == "pre_index":
+                    i = op[3] if pl is None else op[3] % pl
+                    if i >= len(base):
+                        want, expect_exc = None, IndexError
+                    else:
+                        want = [base[i]]
+                    try:
+                        got = [qq[i]]
+                    except IndexError:
+                        got = IndexError
+                else:
+                    start, stop = op[3], op[3] + op[4]
+                    if pl is not None:
+                        stop = min(stop, pl)
+                        start = min(start, stop)
+                    want = base[start:stop]
+                    got = qq.slice(start, stop).all()
             else:
                 want = full[:1]
                 f = q().first()
@@ -465,7 +535,9 @@ def check_query(case, ctx):
     ctx.note(
         case,
         kind != "first" and n > 0,
-        classes=["op=" + kind, "eager=" + case["eager"], "expect=" + ("IndexError" if expect_exc else "empty" if not want else "rows"), "n=0" if n == 0 else "n>0"],
+        classes=["op=" + kind, "eager=" + case["eager"]]
+        + (["pre:" + ("offset>0" if op[1] else "offset=0") + ("+limit" if op[2] is not None else "") + ("+start=0" if (kind != "pre_index" and op[3] in (0, None)) or (kind == "pre_index" and op[3] == 0) else "+start>0")] if kind.startswith("pre_") else [])
+        + [ "expect=" + ("IndexError" if expect_exc else "empty" if not want else "rows"), "n=0" if n == 0 else "n>0"],
     )
     if expect_exc is not None:
         if got is not IndexError:
